@@ -191,6 +191,23 @@ theorem c24_extract_keeps_other_captures (gc ins : List Nat) : ∀ (ds : List Na
         rw [htv] at htake
         rw [c24_extract_keeps_other_captures gc ins ms st' n hns, htake]
 
+/-- Input collection of a primitive step that does not run in place is the shared `lookups` over
+`run_plan`'s lookup order; so whenever that order agrees with the naive environment on the
+operator's inputs, the step computes the naive result. -/
+theorem c24_collect_eq_lookups (views : Env V) (st : St V) : ∀ (ins : List Nat) (pos : Nat),
+    collect views st [] pos ins = lookups (opLookup views st) ins
+  | [], _ => rfl
+  | n :: ns, pos => by
+    simp only [collect, lookups, look]
+    rw [c24_collect_eq_lookups views st ns (pos + 1)]
+
+theorem c24_lookups_congr (f g : Nat → Option V) : ∀ (ns : List Nat), (∀ n ∈ ns, f n = g n) →
+    lookups f ns = lookups g ns
+  | [], _ => rfl
+  | n :: ns, h => by
+    simp only [lookups]
+    rw [h n List.mem_cons_self, c24_lookups_congr f g ns (fun m hm => h m (List.mem_cons_of_mem _ hm))]
+
 /-- Component-level hole: `CaptureEnv::get_input` skips the local graph for a *capture node*, but
 `run_plan` stores a by-value capture taken from the enclosing environment under exactly that node.
 Such a value can be taken in place (`can_take_input`) but not read.  On graphs produced by the
